@@ -23,7 +23,7 @@ import modelgen
 import vlib
 from checks import c06
 
-THEOREMS = ["Yardl.C05.conversion_total", "Yardl.C05.unchanged_types_convert_exactly", "Yardl.C05.record_fields_convert_by_name",
+THEOREMS = ["Yardl.C05.conversion_total", "Yardl.C05.unchanged_types_convert_exactly", "Yardl.C05.integer_conversion_checks_range", "Yardl.C05.every_integer_has_a_range", "Yardl.C05.record_fields_convert_by_name",
             "Yardl.C05.integer_narrowing_overflows"]
 
 
